@@ -156,4 +156,4 @@ Definition v_big_window (rows : list (list byte)) (r : Z) (window : list (list b
    to [head] (Properties.C01_hpf_check_sound: then H_pf holds for the real text) — and the model
    printer's text for [head] is [mirror] *)
 Definition v_hpf_real (real : list byte) (uhdr head : hdict pv) (mirror : list byte) (dt : dtype) : Z :=
-  if hpf_check real uhdr head dt && bytes_eqb (py_pformat head) mirror then 0 else 1.
+  if hpf_check_all real uhdr head dt && bytes_eqb (py_pformat head) mirror then 0 else 1.
